@@ -150,9 +150,10 @@ Obliged(cc) ==       \* positions in ms.mins that must be >= 0
 
 V10(e) ==
     LET cc == cur.cfg
-        bad == {p \in Obliged(cc) : p <= Len(e.st.mins) /\ ~(IsInt(e.st.mins[p]) /\ e.st.mins[p] >= 0)} IN
+        have == {p \in Obliged(cc) : p <= Len(e.st.mins)} IN
     IF \E p \in Obliged(cc) : p > Len(e.st.mins) THEN "MissingArray"
-    ELSE IF bad # {} THEN "NegativeEntry"
+    ELSE IF \E p \in have : ~IsInt(e.st.mins[p]) THEN "NonFiniteEntry"
+    ELSE IF \E p \in have : e.st.mins[p] < 0 THEN "NegativeEntry"
     ELSE "ok"
 
 ----------------------------------------------------------------------------
